@@ -7,7 +7,7 @@ undoes with direct writes; R4 one SetIp per instruction, logged last."""
 from ..core import (callee_of, expr_walk, expr_str, return_defs, short, op_place, runtime_targets,
                     TRY_BRANCH, FROM_RESIDUAL, MissingAnchor)
 from .. import awrite, logfx
-from ..pathq import bool_branch, blocks_reaching, blocks_after, exists_path_avoiding, error_blocks
+from ..pathq import bool_branch, blocks_reaching, blocks_after, exists_path_avoiding, error_blocks, edge_guards
 
 EXPLANATION = (
     "Pairing rule over the MIR of every function the VM can reach at run time (call graph from fetch_and_run plus the "
@@ -472,6 +472,10 @@ def check_log_retention(rep, fx, W):
                 rep.add('C02.R3', key, ok, 'the pop that feeds rnext' if ok else
                         '%s pops the reverse log outside rnext (callers: %s): recorded steps disappear without being undone' % (short(fn), sorted(callers)),
                         fn, w['at'], nontrivial=False)
+            elif fn == 'state::State::context_close' and how.startswith('call:shrink:truncate') and \
+                    '.ctx.' in ' '.join(expr_str(fx.fns[fn].expr_of_operand(a), -12) for a in w['term']['args'][1:]):
+                rep.add('C02.R3', key, True, 'entries logged by a build-time (meta) evaluation are dropped with the code they refer to', fn, w['at'],
+                        nontrivial=False)
             elif fn == 'state::State::set_recording_enabled' and how.startswith('assign'):
                 rep.add('C02.R3', key, True, 'recording switched on (empty log) / off (log dropped) as a whole', fn, w['at'], nontrivial=False)
             else:
@@ -479,6 +483,26 @@ def check_log_retention(rep, fx, W):
                         '%s changes State.reverse_log by %s: entries are removed or rewritten without being applied, so steps recorded earlier can no '
                         'longer be undone (or are undone only in part)' % (short(fn), how), fn, w['at'])
     rep.floor('C02.R3 reverse_log write events', n, 3)
+    # build-time evaluation (`#( .. #)`, enum, const, ~) ) runs code that is purged when the block closes.  What it logged must go
+    # too: the entries point into purged code, and the last of them has no SetIp after it, so rnext would apply it while undoing
+    # the first instruction of the real program
+    cc = fx.fns.get('state::State::context_close')
+    if cc is None:
+        raise MissingAnchor('state::State::context_close')
+    from .. import inline
+    ccv = inline.View(fx)('state::State::context_close')
+    cuts = [w for w in awrite.field_writes(fx, ccv, _TRACKED[0]) if w['field'][0] == 'reverse_log' and w['how'].startswith('call:shrink:truncate')]
+    okc = False
+    for w in cuts:
+        a = ' '.join(expr_str(ccv.expr_of_operand(x), -12) for x in w['term']['args'][1:])
+        if '.ctx.' in a:
+            for (b2, e, side) in edge_guards(ccv, w['bb']):
+                if isinstance(e, tuple) and e[0] == 'call' and 'ContextMode' in e[1] and side:
+                    okc = True
+    rep.add('C02.R3', 'C02.R3:meta-evaluation-leaves-no-log-entries', okc,
+            'context_close cuts the log back to the mark of the meta context' if okc else
+            'what a meta block logs while it runs at build time stays on the reverse log: with recording on, compile(`#( 1 2 + #) 4`), '
+            'two steps forward and two back leave 3 on the stack, and replay yields 3 3 4', cc.name, cc.j['span'])
 
 
 def _log_after_join(f, wbb, guard):
